@@ -81,6 +81,29 @@ def make_failure(orig, status, reason, message, keep_operation=True):
     return T.encode((tree[0], tree[1], items))
 
 
+def ends_between_items(buf):
+    """Do the bytes of `buf` end exactly where an item ends (at some depth)?  Then every item that is present is whole and
+    only the announced lengths of the enclosing structures exceed what was delivered; otherwise the bytes end inside an
+    item's header or value."""
+    def walk_(p, end):
+        while p < end:
+            if end - p < 8:
+                return False
+            typ = buf[p + 3]
+            n = struct.unpack('!I', buf[p + 4:p + 8])[0]
+            if typ == T.STRUCTURE:
+                if not walk_(p + 8, min(p + 8 + n, end)):
+                    return False
+                p = p + 8 + n
+            else:
+                padded = (n + 7) // 8 * 8
+                if p + 8 + padded > end:
+                    return False
+                p = p + 8 + padded
+        return True
+    return walk_(0, len(buf))
+
+
 def make_success(orig, payload_kids):
     """The server's response with its single item replaced by a scripted success carrying `payload_kids` (for
     operations this server does not implement, or response fields it never sends)."""
@@ -407,7 +430,8 @@ def calls(rng, env, version):
                 None, crypto_req(env['sym'].uid, m_data, {'cryptographic_algorithm': m_alg})))
     # creating calls: every argument becomes the attribute that bears its name
     c_alg, c_len = rng.choice((CA.AES, CA.TRIPLE_DES, CA.BLOWFISH)), rng.choice((128, 192, 256))
-    c_name, c_pol = rng.choice((None, 'c19-n-%d' % rng.randrange(10 ** 6))), rng.choice((None, 'default'))
+    # (a name outside ASCII: the request must reach the server decodable, carrying the name, or not be sent at all)
+    c_name, c_pol = rng.choice((None, 'c19-n-%d' % rng.randrange(10 ** 6), 'c19-cl\u00e9-\u00fc-%d' % rng.randrange(100))), rng.choice((None, 'default'))
     c_mask = rng.choice((None, [M.ENCRYPT], [M.ENCRYPT, M.DECRYPT, M.MAC_GENERATE]))
 
     def attr_values(p_):
@@ -441,7 +465,7 @@ def calls(rng, env, version):
     out.append(('create_args', lambda c: c.create(c_alg, c_len, operation_policy_name=c_pol, name=c_name, cryptographic_usage_mask=c_mask),
                 uid_is, None, create_req))
     k_len = rng.choice((1024, 2048))
-    k_pub, k_priv = rng.choice((None, 'c19-pub-%d' % rng.randrange(10 ** 6))), rng.choice((None, 'c19-priv-%d' % rng.randrange(10 ** 6)))
+    k_pub, k_priv = rng.choice((None, 'c19-pub-%d' % rng.randrange(10 ** 6), 'c19-\u00f6ffentlich')), rng.choice((None, 'c19-priv-%d' % rng.randrange(10 ** 6)))
     k_pm, k_vm = rng.choice((None, [M.VERIFY], [M.VERIFY, M.ENCRYPT])), rng.choice((None, [M.SIGN], [M.SIGN, M.DECRYPT]))
 
     def pair_req(req):
@@ -662,7 +686,7 @@ def run_case(ctx, case):
                     name, thunk, checker = entry[:3]
                     script = entry[3] if len(entry) > 3 else None
                     reqcheck = entry[4] if len(entry) > 4 else None
-                    mode = rng.choice(('plain', 'plain', 'fail', 'fail', 'fail-nomsg', 'status', 'truncate'))
+                    mode = rng.choice(('plain', 'plain', 'fail', 'fail', 'fail-nomsg', 'status', 'truncate', 'inconsistent'))
                     planned = {}
                     if mode in ('fail', 'fail-nomsg', 'status'):
                         planned['status'] = E.ResultStatus.OPERATION_FAILED if mode != 'status' else rng.choice(
@@ -675,6 +699,27 @@ def run_case(ctx, case):
                         planned['keep_op'] = rng.random() < 0.75
                         sock.transform = lambda o, pl=planned: make_failure(o, pl['status'].value, pl['reason'].value,
                                                                            pl['message'], pl['keep_op'])
+                    elif mode == 'inconsistent':
+                        # a response whose frame header announces exactly the bytes delivered, but whose body ends inside an
+                        # item (whole 8-byte blocks of its last text / byte string are missing): it cannot be decoded
+                        def incons(o, sc=script):
+                            if rng.random() < 0.5:
+                                planned['message'] = rng.choice(('m' * 8, 'm' * 16, 'm' * 32, 'm' * 200, 'denied'))
+                                o2 = make_failure(o, E.ResultStatus.OPERATION_FAILED.value, E.ResultReason.PERMISSION_DENIED.value,
+                                                  planned['message'], True)
+                            else:
+                                o2 = make_success(o, sc) if sc is not None else o
+                                t_ = T.decode(o2, strict=False)
+                                for pth, it in list(T.walk(t_)):
+                                    if it[0] == T.T_UNIQUE_IDENTIFIER and it[1] == T.TEXT:
+                                        t_ = T.replace_at(t_, pth, (it[0], it[1], 'u' * rng.choice((8, 16, 32))))
+                                o2 = T.encode(t_)
+                            cut = rng.choice((len(o2) - 8, len(o2) - 8, len(o2) - 16, len(o2) - 24, len(o2) - 32, len(o2) - 4, len(o2) - 12,
+                                              len(o2) // 16 * 8))
+                            cut = max(16, min(cut, len(o2) - 1))
+                            planned['cut'] = cut
+                            return o2[:4] + struct.pack('!I', cut - 8) + o2[8:cut]
+                        sock.transform = incons
                     elif mode == 'truncate':
                         def trunc(o):
                             cut = rng.choice((0, 1, 4, 7, 8, 9, 12, len(o) // 2, len(o) - 9, len(o) - 8, len(o) - 1))
@@ -734,6 +779,28 @@ def run_case(ctx, case):
                             rp = 'request could not be examined (%s: %s)' % (type(e).__name__, e)
                         if rp:
                             ctx.violation('%s|request|arguments' % name, '%s under %s: %s' % (name, vname, rp), detail)
+                    if mode == 'inconsistent':
+                        try:
+                            T.decode(deliv, strict=True)
+                            ctx.count('inconsistent_responses_decodable_after_all')
+                            continue
+                        except Exception:
+                            pass
+                        ctx.count('inconsistent_responses_checked')
+                        where = 'between-items' if ends_between_items(deliv) else 'inside-item'
+                        ctx.count('inconsistent_responses_ending_%s' % where.replace('-', '_'))
+                        what_ = ('ends after a whole item although the enclosing structures announce more bytes' if where == 'between-items'
+                                 else 'ends inside an item')
+                        ctx.cell(name, vname, 'inconsistent', where, type(raised).__name__ if raised else 'returned')
+                        if raised is None:
+                            ctx.violation('inconsistent-response|%s|returned' % where, '%s returned %r although the response %s '
+                                          '(body cut at byte %d, frame header adjusted)' % (name, str(result)[:120], what_, planned.get('cut', -1)), detail)
+                        elif isinstance(raised, pie_exc.KmipOperationFailure) and planned.get('message') is not None and \
+                                planned['message'] not in str(raised):
+                            ctx.violation('inconsistent-response|%s|reported-as-server-failure' % where, '%s reports the operation failure %r '
+                                          '(the Result Message sent is %r); the response %s and cannot be decoded'
+                                          % (name, str(raised)[:120], planned['message'][:40], what_), detail)
+                        continue
                     if mode == 'truncate':
                         ctx.count('truncations_checked')
                         ctx.cell(name, vname, 'truncate', type(raised).__name__ if raised else 'returned')
